@@ -14,6 +14,8 @@ Oracle (evaluated on the implementation): byte equality of what the property obs
     `self.match = m`, thread B runs a whole scan, A resumes                     (kind schedule)
   * a forced interleaving at document level: thread A is parked when Survey.xml() returns (built, not
     serialised) while thread B converts a form of every feature family           (kind schedule)
+  * fresh processes whose first conversions run concurrently (8 threads behind a barrier): lazily
+    initialised module state                                                    (kind first-use)
   * 3x regeneration from one survey object                                      (kind regen)
   * converting the same dict object twice                                       (kind same-object)
   * every lru_cache hit compared with the uncached function                     (kind cache-hit)
@@ -118,10 +120,10 @@ class Workdir:
         shutil.rmtree(self.path, ignore_errors=True)
 
 
-def run_worker(wd: Workdir, hashseed: int, forms: list, order: list[int], tag: str):
+def run_worker(wd: Workdir, hashseed: int, forms: list, order: list[int], tag: str, **extra):
     """One fresh interpreter with the given PYTHONHASHSEED and a private TMPDIR."""
     job = wd.path / f"job-{tag}.json"
-    job.write_text(json.dumps({"forms": forms, "order": order, "check_tmp": True}, ensure_ascii=False))
+    job.write_text(json.dumps({"forms": forms, "order": order, "check_tmp": True, **extra}, ensure_ascii=False))
     tmp = wd.sub(f"tmp-{tag}")
     env = dict(os.environ)
     env.update({"PYTHONHASHSEED": str(hashseed), "TMPDIR": str(tmp), "PYTHONPATH": str(HARNESS),
@@ -206,6 +208,46 @@ def attribute(ctx, wd, case, forms, order, i, s0, s1, a, b, d):
                          "than alone: " + describe(a, b),
                          {"kind": "history", "forms": forms, "order": order, "index": i, "seed": s1},
                          extra={"diff": d, "alone": short(x1), "in_batch": short(b), "feats": case["feats"]}))
+
+
+# --------------------------------------------------------------------------- phase: first use, concurrently
+
+
+def phase_first_use(ctx, wd, cases, ref, n_procs, n_threads):
+    """Lazily initialised module state (tables read on first use, caches filled on first call): in FRESH
+    interpreters the very first conversions run concurrently (threads behind a barrier, 1 us switch
+    interval); every result must equal the one of the form converted alone.  One representative per
+    feature family, so that every lazy table is first touched under concurrency."""
+    reps = {}
+    for i, c in enumerate(cases):
+        if ref[i][0] in ("ok", "pyxform") and c["feats"] and c["feats"][0] not in reps and len(c["form"].get("survey", [])) <= 60:
+            reps[c["feats"][0]] = i
+    idx = list(reps.values())
+    forms = [cases[i]["form"] for i in idx]
+    seed0 = ctx.notes["hashseeds"][0]
+    # process k: all threads start with form k (its lazy tables are first used by all threads at once), then
+    # each continues with a few of the others in rotated order
+    leads = list(range(len(forms)))
+    if n_procs < len(leads):
+        leads = ctx.rng.sample(leads, n_procs)
+    with ThreadPoolExecutor(max_workers=8) as ex:
+        futs = [ex.submit(run_worker, wd, seed0, forms, list(range(len(forms))), f"first{k}", threads=n_threads, switch=1e-6,
+                          lead=k, tail=3) for k in leads]
+        replies = [f.result() for f in futs]
+    n_procs = len(leads)
+    for k, r in enumerate(replies):
+        for t, per_thread in enumerate(r["results"]):
+            for j, got in enumerate(per_thread):
+                if got is None:
+                    continue
+                d = diff_fields(ref[idx[j]], got)
+                if d:
+                    ctx.fail(Failure("first-use", f"fresh process, {n_threads} threads starting together: thread {t} got another result for "
+                                     f"form {j} than the form converted alone: " + describe(ref[idx[j]], got),
+                                     {"kind": "first-use", "forms": forms, "index": j, "threads": n_threads, "seed": seed0},
+                                     extra={"diff": d, "feats": cases[idx[j]]["feats"], "alone": short(ref[idx[j]]), "concurrent": short(got)}))
+    ctx.count("first_use:fresh_processes", n_procs)
+    ctx.count("first_use:conversions", sum(1 for r in replies for per in r["results"] for g in per if g is not None))
 
 
 # --------------------------------------------------------------------------- caches
@@ -659,6 +701,37 @@ def phase_regen(ctx, case, ref):
     ctx.count("regenerations", len(routes))
 
 
+def unexplained_mutations(before: dict, after: dict) -> list[str]:
+    """Differences between the caller's dict before and after a conversion that are not what
+    `clean_text_values` stores back (Process.cleanSheet: cleaned text cells, `__row` on choices rows)."""
+    from pyxform.xls2json import clean_text_values
+
+    out = []
+    for sheet in sorted(set(before) | set(after)):
+        b, a = before.get(sheet), after.get(sheet)
+        if b == a:
+            continue
+        if not (isinstance(b, list) and isinstance(a, list) and len(a) == len(b)) or sheet.endswith("_header") or sheet == "sheet_names":
+            out.append(f"{sheet}: {b!r} -> {a!r}"[:200])
+            continue
+        for n, (rb, ra) in enumerate(zip(b, a)):
+            if rb == ra:
+                continue
+            for k in sorted(set(rb) | set(ra)):
+                vb, va = rb.get(k, "<absent>"), ra.get(k, "<absent>")
+                if vb == va or (k == "__row" and vb == "<absent>" and isinstance(va, int)):
+                    continue
+                if isinstance(vb, str) and isinstance(va, str):
+                    try:
+                        exp = clean_text_values(sheet, [{k: vb}], strip_whitespace=(sheet == "survey"))[0][k]
+                    except Exception:  # noqa: BLE001
+                        exp = None
+                    if exp == va:
+                        continue
+                out.append(f"{sheet}[{n}][{k!r}]: {vb!r} -> {va!r}"[:200])
+    return out
+
+
 def phase_same_object(ctx, case):
     d = copy.deepcopy(c14_impl.to_dict(case["form"]))
     pristine = copy.deepcopy(d)
@@ -668,12 +741,15 @@ def phase_same_object(ctx, case):
     c, _ = c14_impl.convert_dict(d)
     if mutated:
         ctx.count("same_object:input_mutated")
+        other = unexplained_mutations(pristine, d)
+        if other:
+            ctx.count("same_object:mutation_beyond_cleaning")
     for x, nth in ((b, 2), (c, 3)):
         df = diff_fields(a, x)
         if df:
             ctx.fail(Failure("same-object", f"conversion #{nth} of the same dict object differs from the first: " + describe(a, x),
                              {"kind": "same-object", "form": case["form"]},
-                             extra={"diff": df, "a": short(a), "b": short(x),
+                             extra={"diff": df, "a": short(a), "b": short(x), "beyond_cleaning": unexplained_mutations(pristine, d)[:5],
                                     "header_keys": sorted((pristine.get("settings_header") or [{}])[0])}))
             break
     ctx.count("same_object:conversions", 3)
@@ -852,9 +928,26 @@ def phase_model(ctx, n_lru):
 # --------------------------------------------------------------------------- explore / replay
 
 
+N3_FORM = {
+    "survey": [{"type": "integer", "name": "n", "label": "N"},
+               {"type": "begin repeat", "name": "r", "label": "R", "control": {"jr:count": "${n} + 1"}},
+               {"type": "text", "name": "t", "label": "T"}, {"type": "end repeat"}],
+}
+
+
 def matchers():
-    """No open finding of C14 on the repaired tree (N1, N2, F23 were fixed: 1948d14, f88f509, d7ea67c)."""
-    return {}
+    """Open: N3.  (N1, N2, F23 were fixed: 1948d14, f88f509, d7ea67c.)"""
+
+    def n3(f):
+        # pre-grouped `control: {"jr:count": <expression>}` of a repeat rewritten to ${<name>_count} in the caller's dict
+        if f.kind != "same-object" or f.extra.get("diff") != ["class"]:
+            return False
+        b = f.extra.get("b") or []
+        muts = f.extra.get("beyond_cleaning") or []
+        return (len(b) > 1 and b[0] == "pyxform" and "_count}" in str(b[1]) and "There is no survey element with this name" in str(b[1])
+                and bool(muts) and all("['control']" in m and "jr:count" in m and "_count}" in m for m in muts))
+
+    return {"N3-nested-control-jr-count-rewritten-in-input": n3}
 
 
 def timed(ctx, name, t0):
@@ -873,10 +966,12 @@ def explore(ctx, factor, bs):
     old_tmp = tempfile.tempdir
     tempfile.tempdir = str(private_tmp)
     try:
-        n = ctx.pick(66, 240) * factor
+        n = ctx.pick(72, 240) * factor
         cases = c14_gen.batch(ctx.rng, n, big=not ctx.quick())
         ref = phase_seeds(ctx, wd, cases, ctx.pick(8, 64), ctx.pick(8, 32))
         t0 = timed(ctx, "seeds", t0)
+        phase_first_use(ctx, wd, cases, ref, ctx.pick(32, 64), 8)
+        t0 = timed(ctx, "first_use", t0)
         for c, r in zip(cases, ref):
             ctx.count("class:" + r[0])
             for f in c["feats"]:
@@ -909,6 +1004,7 @@ def explore(ctx, factor, bs):
             phase_regen(ctx, cases[i], seq[i])
         for c in cases:
             phase_same_object(ctx, c)
+        phase_same_object(ctx, {"form": copy.deepcopy(N3_FORM), "feats": ["directed:N3"]})   # open finding, every run
         t0 = timed(ctx, "regen_same_object", t0)
         gc.collect()
         left = sorted(os.listdir(private_tmp))
@@ -971,6 +1067,11 @@ def replay(ctx, payload, bs):
             forms = [case["form"], *case["others"]]
             cs = [{"form": f, "feats": [f"f{k}"]} for k, f in enumerate(forms)]
             phase_build_serialise(ctx, cs, [c14_impl.observe(f) for f in forms])
+        elif kind == "first-use":
+            cs = [{"form": f, "feats": [f"f{k}"]} for k, f in enumerate(case["forms"])]
+            ctx.notes["hashseeds"] = [case.get("seed", 0)]
+            alone = [run_worker(wd, case.get("seed", 0), [f], [0], f"fa{k}")["results"][0] for k, f in enumerate(case["forms"])]
+            phase_first_use(ctx, wd, cs, alone, 64, case.get("threads", 8))
         elif kind == "regen":
             phase_regen(ctx, {"form": case["form"], "feats": []}, None)
         elif kind == "same-object":
